@@ -1,6 +1,7 @@
 package dht
 
 import (
+	"context"
 	"net"
 	"time"
 
@@ -8,46 +9,33 @@ import (
 	"github.com/anacrolix/dht/v2/krpc"
 )
 
-// C05: the routing table stays well formed under histories of updateNode (the single entry point
-// through which inbound queries, responses and the AddNode API reach the table) and failed pings.
-
-func verifServerForTable(k int) *Server {
-	var root krpc.ID
-	verifFill(root[:])
-	s := &Server{}
-	s.id = int160.FromByteArray(root)
-	s.table.rootID = s.id
-	s.table.k = k
-	s.config.NoSecurity = true
-	return s
-}
-
-func verifTableAddrs() []Addr {
-	return []Addr{
-		verifAddr(net.IP{1, 2, 3, 4}, 1000, "1.2.3.4:1000"),
-		verifAddr(net.IP{1, 2, 3, 4}, 1001, "1.2.3.4:1001"),
-	}
-}
+// C05 / C06: the routing table under histories of the events that reach it - inbound queries (through
+// the real serve loop and handleQuery), responses and failed pings (Server.updateNode with the closures
+// the handlers use), and the AddNode API - on a real NewServer whose bucket size is lowered so that
+// full buckets, replacement and refusal are reached by short histories (the code is parametric in k).
 
 // verifTableInvariant walks the buckets directly (not through the table's own accessors).
 func verifTableInvariant(s *Server) {
+	verifMapOrders(false)
+	defer verifMapOrders(true)
+	s.mu.RLock()
 	t := &s.table
-	total := 0
-	indexed := 0
+	total, indexed, good := 0, 0, 0
 	for _, ids := range t.addrs {
 		verifAssert(len(ids) > 0, "C05: no empty per-address index entry")
 		indexed += len(ids)
 	}
 	for bi := range t.buckets {
 		b := &t.buckets[bi]
+		if len(b.nodes) == 0 {
+			continue
+		}
 		verifAssert(len(b.nodes) <= t.k, "C05: no bucket holds more than K entries")
 		for n := range b.nodes {
 			total++
 			verifAssert(n.Id != t.rootID, "C05: the node's own ID never appears")
 			verifAssert(!n.Id.IsZero(), "C05: the all-zero ID never appears")
-			var x int160.T
-			x.Xor(&t.rootID, &n.Id)
-			verifAssert(bi == refPrefixLen160(x), "C05: every entry sits in the bucket of its shared prefix length")
+			verifAssert(bi == verifPrefixLen(t.rootID, n.Id), "C05: every entry sits in the bucket of its shared prefix length")
 			_, ok := t.addrs[n.Addr.String()][n.Id]
 			verifAssert(ok, "C05: every entry is in the address index")
 			for m := range b.nodes {
@@ -55,19 +43,27 @@ func verifTableInvariant(s *Server) {
 					verifAssert(!(m.Id == n.Id && m.Addr.String() == n.Addr.String()), "C05: no two entries share both ID and address")
 				}
 			}
+			if s.IsGood(n) {
+				good++
+			}
 		}
 	}
 	verifAssert(indexed == total, "C05: address index and buckets hold the same entries")
-	verifAssert(s.numNodes() == total, "C05: reported node count agrees with the entries")
+	s.mu.RUnlock()
+	verifAssert(s.NumNodes() == total, "C05: NumNodes agrees with the entries")
+	st := s.Stats()
+	verifAssert(st.Nodes == total && st.GoodNodes == good, "C05: Stats agrees with the entries")
+	verifAssert(len(s.Nodes()) <= total, "C05: the exported node list holds no more than the entries")
 }
 
-// refPrefixLen160: number of leading zero bits of a 160-bit value, written independently of BitLen.
-func refPrefixLen160(x int160.T) int {
-	b := x.AsByteArray()
+// verifPrefixLen: shared leading bits of two ids, written independently of int160.BitLen.
+func verifPrefixLen(a, b int160.T) int {
+	x, y := a.AsByteArray(), b.AsByteArray()
 	n := 0
 	for i := 0; i < 20; i++ {
+		d := x[i] ^ y[i]
 		for bit := 7; bit >= 0; bit-- {
-			if b[i]>>uint(bit)&1 != 0 {
+			if d>>uint(bit)&1 != 0 {
 				return n
 			}
 			n++
@@ -76,62 +72,265 @@ func refPrefixLen160(x int160.T) int {
 	return n
 }
 
-// verifContactID: an arbitrary ID whose shared prefix with root is one of a few lengths (so that the
-// bucket array index is decided per path), or the root ID itself, or the all-zero ID.
-func verifContactID(root int160.T) (id krpc.ID) {
-	prefixes := []int{0, 1, 8, 159}
-	c := verifChoice(0, len(prefixes)+1)
-	switch {
-	case c == len(prefixes):
-		return krpc.ID(root.AsByteArray())
-	case c == len(prefixes)+1:
-		return krpc.ID{}
+// The address universe: one IPv4 endpoint in its 4-byte and in its 16-byte form (same address string),
+// the same IP on another port, and another IP.
+func verifTableAddr(i int) *net.UDPAddr {
+	switch i {
+	case 0:
+		return &net.UDPAddr{IP: net.IP{203, 0, 113, 7}, Port: 6881}
+	case 1:
+		return &net.UDPAddr{IP: net.IPv4(203, 0, 113, 7), Port: 6881}
+	case 2:
+		return &net.UDPAddr{IP: net.IP{203, 0, 113, 7}, Port: 6882}
 	}
-	p := prefixes[c]
-	var d [20]byte
-	verifFill(d[:])
-	for bit := 0; bit < p; bit++ {
-		verifAssume(d[bit/8]>>(7-uint(bit%8))&1 == 0)
+	return &net.UDPAddr{IP: net.IP{198, 51, 100, 9}, Port: 6881}
+}
+
+const (
+	verifEvQuery = iota
+	verifEvResponse
+	verifEvAddNode
+	verifEvFailedPing
+	verifEvTimePasses
+)
+
+// verifTableEvent applies one event to the table.
+func verifTableEvent(v *verifSrv, ev int, id krpc.ID, addr *net.UDPAddr) {
+	s := v.s
+	switch ev {
+	case verifEvQuery: // an inbound ping through the serve loop
+		m := krpc.Msg{Q: "ping", Y: "q", T: "tq", A: &krpc.MsgArgs{ID: id}, ReadOnly: verifNondetBool()}
+		v.sock.deliver(verifEncode(m, 50), addr)
+	case verifEvResponse: // what processPacket does for a response matched to a transaction
+		s.mu.Lock()
+		s.updateNode(NewAddr(addr), &id, true, func(n *node) {
+			n.lastGotResponse = time.Now()
+			n.failedLastQuestionablePing = false
+			n.numReceivesFrom++
+		})
+		s.mu.Unlock()
+	case verifEvAddNode:
+		s.AddNode(krpc.NodeInfo{ID: id, Addr: krpc.NodeAddr{IP: addr.IP, Port: addr.Port}})
+		verifFireTimers()
+		verifQuiesce()
+	case verifEvFailedPing: // what questionableNodePing does after a time-out
+		s.mu.Lock()
+		s.updateNode(NewAddr(addr), &id, false, func(n *node) { n.failedLastQuestionablePing = true })
+		s.mu.Unlock()
+	case verifEvTimePasses:
+		verifFreezeClock(false)
+		time.Now()
+		verifFreezeClock(true)
 	}
-	verifAssume(d[p/8]>>(7-uint(p%8))&1 == 1)
-	rb := root.AsByteArray()
-	for i := range id {
-		id[i] = rb[i] ^ d[i]
+}
+
+func verifC05History(steps, k int, ids []int) {
+	verifLimiterAlwaysGrants()
+	v := verifStartServer(verifSrvOpt{noSecurity: true})
+	v.s.table.k = k
+	verifFreezeClock(true)
+	for i := 0; i < steps; i++ {
+		ev := verifChoice(0, 4)
+		id := verifPeerID(v.id, ids, true)
+		addr := verifTableAddr(verifChoice(0, 3))
+		verifTableEvent(v, ev, id, addr)
+		verifTableInvariant(v.s)
 	}
+	verifReach("end")
+}
+
+func VerifC05_History2_K1() { verifC05History(2, 1, []int{0}) }
+func VerifC05_History2_K2() { verifC05History(2, 2, []int{0, 9}) }
+func VerifC05_History3_K1() { verifC05History(3, 1, []int{0}) }
+
+// One step from an arbitrary reachable table: a bucket of size 2 holding 0..2 contacts of arbitrary
+// liveness class, then any event with any ID (same bucket, another bucket, the node's own, zero;
+// possibly the ID of an existing entry) from any address (an existing entry's address in either form,
+// or a new one). The invariant holds afterwards. Together with the histories from the empty table
+// this covers histories of any length whose intermediate tables have this shape.
+func VerifC05_Step() {
+	verifLimiterAlwaysGrants()
+	v := verifStartServer(verifSrvOpt{noSecurity: true, concreteID: true})
+	v.s.table.k = 2
+	verifFreezeClock(true)
+	n := verifChoice(0, 2)
+	var cs []verifContact
+	for i := 0; i < n; i++ {
+		c := verifContact{state: []int{verifGood, verifQueriedOnly, verifFailedPing, verifStale}[verifChoice(0, 3)], bucket: 4,
+			id: verifConcreteIDInBucket(v.id, 4, byte(i+1)), addr: verifTableAddr(i * 3)}
+		verifAddContact(v, c)
+		cs = append(cs, c)
+	}
+	verifTableInvariant(v.s)
+	var id krpc.ID
+	switch verifChoice(0, 4) {
+	case 0:
+		id = verifConcreteIDInBucket(v.id, 4, 1) // the first entry's ID (if any)
+	case 1:
+		id = verifConcreteIDInBucket(v.id, 4, 7) // a new ID for the same bucket
+	case 2:
+		id = verifConcreteIDInBucket(v.id, 11, 1) // another bucket
+	case 3:
+		id = v.id
+	case 4:
+	}
+	verifTableEvent(v, verifChoice(0, 4), id, verifTableAddr(verifChoice(0, 3)))
+	verifTableInvariant(v.s)
+	verifReach("end")
+}
+
+// The same endpoint reaching the table in its 4-byte and in its 16-byte form, under the same ID,
+// through every pair of events: one entry.
+func VerifC05_AddressForms() {
+	verifLimiterAlwaysGrants()
+	v := verifStartServer(verifSrvOpt{noSecurity: true})
+	verifFreezeClock(true)
+	id := verifIDInBucket(v.id, 0)
+	verifTableEvent(v, []int{verifEvQuery, verifEvResponse, verifEvAddNode}[verifChoice(0, 2)], id, verifTableAddr(verifChoice(0, 1)))
+	verifTableEvent(v, []int{verifEvQuery, verifEvResponse, verifEvAddNode}[verifChoice(0, 2)], id, verifTableAddr(verifChoice(0, 1)))
+	verifTableInvariant(v.s)
+	verifAssert(v.s.NumNodes() <= 1, "C05: one endpoint under one ID is one entry whatever form its IP arrives in")
+	verifReach("end")
+}
+
+func VerifC05_MustFail() {
+	verifLimiterAlwaysGrants()
+	v := verifStartServer(verifSrvOpt{noSecurity: true})
+	v.s.table.k = 1
+	verifFreezeClock(true)
+	for i := 0; i < 2; i++ {
+		verifTableEvent(v, verifEvResponse, verifIDInBucket(v.id, 0), verifTableAddr(i*3))
+	}
+	verifAssert(v.s.NumNodes() == 2, "twin: two contacts always both fit one bucket of size 1 (must fail)")
+}
+
+// ---- C06: who gets in, who is displaced ----
+
+// A bucket of size 2 filled with two contacts of arbitrary liveness class; then a newcomer for that
+// bucket arrives by query or by response. Good entries stay; an entry is displaced only if it is bad,
+// or if it never answered and the newcomer has just answered; an eligible newcomer gets in when
+// there is room.
+func VerifC06_Displacement() {
+	verifLimiterAlwaysGrants()
+	v := verifStartServer(verifSrvOpt{noSecurity: true, concreteID: true})
+	v.s.table.k = 2
+	verifFreezeClock(true)
+	n := verifChoice(1, 2)
+	var cs []verifContact
+	for i := 0; i < n; i++ {
+		c := verifContact{state: verifChoice(0, 4), bucket: 4, id: verifConcreteIDInBucket(v.id, 4, byte(i+1)),
+			addr: &net.UDPAddr{IP: net.IP{198, 51, 100, byte(10 + i)}, Port: 2000 + i}}
+		verifAddContact(v, c)
+		cs = append(cs, c)
+	}
+	verifAssert(v.s.NumNodes() == n, "C06 harness: the bucket holds the contacts")
+	newID := verifConcreteIDInBucket(v.id, 4, 9)
+	newAddr := &net.UDPAddr{IP: net.IP{192, 0, 2, 50}, Port: 5000}
+	answered := verifNondetBool()
+	if answered {
+		verifTableEvent(v, verifEvResponse, newID, newAddr)
+	} else {
+		m := krpc.Msg{Q: "ping", Y: "q", T: "tq", A: &krpc.MsgArgs{ID: newID}}
+		v.sock.deliver(verifEncode(m, 50), newAddr)
+	}
+	verifMapOrders(false)
+	in := func(id krpc.ID) bool {
+		for _, ni := range verifAllNodes(v.s) {
+			if ni.ID == id {
+				return true
+			}
+		}
+		return false
+	}
+	removed := 0
+	for _, c := range cs {
+		if in(c.id) {
+			continue
+		}
+		removed++
+		verifAssert(!c.good(), "C06: a contact that is currently good is never removed")
+		bad := c.state == verifFailedPing
+		neverAnswered := c.state == verifQueriedOnly
+		verifAssert(bad || (neverAnswered && answered), "C06: an entry is displaced only if it is bad, or never answered while the newcomer has just answered")
+	}
+	if n < 2 {
+		verifAssert(in(newID), "C06: an eligible sender is admitted whenever its bucket has room")
+		verifAssert(removed == 0, "C06: nothing is displaced while there is room")
+		verifReach("room")
+	}
+	if in(newID) && n == 2 {
+		verifAssert(removed >= 1, "C06: a full bucket admits a newcomer only by displacing an entry")
+		verifReach("displaced")
+	}
+	verifTableInvariant(v.s)
+	verifReach("end")
+}
+
+// verifAllNodes lists every table entry (good or not).
+func verifAllNodes(s *Server) (out []krpc.NodeInfo) {
+	s.mu.RLock()
+	defer s.mu.RUnlock()
+	s.table.forNodes(func(n *node) bool {
+		out = append(out, n.NodeInfo())
+		return true
+	})
 	return
 }
 
-func verifC05History(steps, k int) {
-	s := verifServerForTable(k)
-	addrs := verifTableAddrs()
-	for i := 0; i < steps; i++ {
-		id := verifContactID(s.id)
-		addr := addrs[verifChoice(0, len(addrs)-1)]
-		responded := verifNondetBool()
-		failed := verifNondetBool()
-		s.updateNode(addr, &id, true, func(n *node) {
-			if responded {
-				n.lastGotResponse = time.Now()
-			} else {
-				n.lastGotQuery = time.Now()
-			}
-			n.failedLastQuestionablePing = failed // a ping time-out recorded on the entry
-		})
-		verifTableInvariant(s)
+// Who is never admitted: read-only senders, the node's own ID, the zero ID, and - with the security
+// extension enforced - IDs that are not valid for the sender's IP.
+func VerifC06_Admission() {
+	verifLimiterAlwaysGrants()
+	isLocalNetwork(net.IP{8, 8, 8, 8})
+	sec := verifNondetBool()
+	v := verifStartServer(verifSrvOpt{noSecurity: !sec})
+	src := verifUDPAddr4()
+	id := verifPeerID(v.id, []int{0}, true)
+	ro := verifNondetBool()
+	m := krpc.Msg{Q: "ping", Y: "q", T: "tq", A: &krpc.MsgArgs{ID: id}, ReadOnly: ro}
+	v.sock.deliver(verifEncode(m, 50), src)
+	added := v.s.NumNodes() == 1
+	eligible := !ro && id != v.id && !id.IsZero() && (!sec || NodeIdSecure(id, src.IP))
+	verifAssert(added == eligible, "C06: a querying sender enters the (empty) table iff it is not read-only, its ID is neither the node's own nor zero, and - under enforcement - valid for its IP")
+	if added {
+		verifReach("added")
 	}
 	verifReach("end")
 }
 
-func VerifC05_History2_K1() { verifC05History(2, 1) }
-func VerifC05_History3_K2() { verifC05History(3, 2) }
-
-func VerifC05_MustFail() {
-	s := verifServerForTable(1)
-	addrs := verifTableAddrs()
-	for i := 0; i < 2; i++ {
-		id := verifContactID(s.id)
-		s.updateNode(addrs[i], &id, true, func(n *node) { n.lastGotResponse = time.Now() })
+// Hearsay: contacts listed inside a reply never enter the table; the answering node itself does
+// (unless its message is flagged read-only).
+func VerifC06_Hearsay() {
+	verifLimiterAlwaysGrants()
+	v := verifStartServer(verifSrvOpt{noSecurity: true})
+	dst := verifC07Addrs[0]
+	p := verifStartQuery(v, context.Background(), dst, "find_node", QueryInput{})
+	if !p.sent {
+		return
 	}
-	verifAssert(s.numNodes() == 2, "twin: two distinct contacts always both fit (must fail)")
+	responder := verifIDInBucket(v.id, 3)
+	ro := verifNondetBool()
+	m := krpc.Msg{Y: "r", T: p.tid, ReadOnly: ro, R: &krpc.Return{ID: responder,
+		Nodes:  krpc.CompactIPv4NodeInfo{{ID: verifIDInBucket(v.id, 1), Addr: krpc.NodeAddr{IP: verifIP4(), Port: 7}}},
+		Nodes6: krpc.CompactIPv6NodeInfo{{ID: verifIDInBucket(v.id, 2), Addr: krpc.NodeAddr{IP: verifIP16(), Port: 8}}},
+		Values: []krpc.NodeAddr{{IP: verifIP4(), Port: 9}}}}
+	v.sock.deliver(verifEncode(m, 90), dst)
+	verifAssert(p.done && p.res.Err == nil, "C07: the reply completes the query")
+	_ = p.res.TraversalQueryResult(krpc.NodeAddr{IP: dst.IP, Port: dst.Port})
+	all := verifAllNodes(v.s)
+	if ro {
+		verifAssert(len(all) == 0, "C06: a responder flagged read-only is not added")
+	} else {
+		verifAssert(len(all) == 1 && all[0].ID == responder, "C06: only the answering node enters the table, never the contacts it lists")
+		verifReach("added")
+	}
 	verifReach("end")
+}
+
+func VerifC06_MustFail() {
+	verifLimiterAlwaysGrants()
+	v := verifStartServer(verifSrvOpt{noSecurity: true})
+	m := krpc.Msg{Q: "ping", Y: "q", T: "tq", A: &krpc.MsgArgs{ID: verifIDInBucket(v.id, 0)}}
+	v.sock.deliver(verifEncode(m, 50), verifUDPAddr4())
+	verifAssert(v.s.NumNodes() == 0, "twin: a querying sender never enters the table (must fail)")
 }
